@@ -134,11 +134,11 @@ func checkC04(c *Ctx, r *Report) {
 	}
 	sw := "(*p2p/net/swarm.Swarm)."
 	wantAdd := map[string][]int64{ // root function -> constant Add arguments (-1: dynamic)
-		sw + "close":                    {-1},
-		sw + "addConn":                  {2},
-		"(*p2p/net/swarm.Conn).start":   {1},
+		sw + "close":                      {-1},
+		sw + "addConn":                    {2},
+		"(*p2p/net/swarm.Conn).start":     {1},
 		"(*p2p/net/swarm.Conn).addStream": {1},
-		sw + "AddListenAddr":            {1, 1},
+		sw + "AddListenAddr":              {1, 1},
 	}
 	wantDone := map[string]int{
 		sw + "close": 1, "(*p2p/net/swarm.Conn).doClose": 1, "(*p2p/net/swarm.Conn).start": 2,
